@@ -250,7 +250,7 @@ def replay(case, rec):
 
 def run(rec, rng, tier, shard, nshards):
     R.check_atoms()
-    n = 2500 if tier == 'quick' else 40000
+    n = 6000 if tier == 'quick' else 60000
     for i in range(n):
         case = gen_case(rng)
         try:
